@@ -245,7 +245,7 @@ def check(run, ctx):
         if wk["to_root"] and not wk["early"] and not wk["conditional_step"]:
             run.ok(M10, f"{mod}.{fn}", "walks every ancestor; only acceptance ends the loop")
         else:
-            why = norm(wk["early"][0]) if wk["early"] else (norm(wk["loop"].test) if not wk["to_root"] else "conditional step")
+            why = norm(wk["early"][0]) if wk["early"] else (f"for ... in {wk['bounded']}" if wk.get("bounded") else norm(wk["loop"].test) if not wk["to_root"] else "conditional step")
             run.finding(M10, f"{mod}.{fn}", f"walk-cut:{why}", f"{fn}: the ancestor walk can stop before the root (`{why}`): a literal nested in a block, closure or call inside the exempt item is reported although the item is exempt", f"{f.module.rel}:{(wk['early'][0] if wk['early'] else wk['loop']).lineno}")
     M12 = run.rule("M12", "the small-integer exemptions for range() and enumerate() apply the same bounds test (0 <= value <= max_small_integer, both ends inclusive)", floor=1,
                    decides="a literal equal to max_small_integer is exempt in enumerate() exactly as it is in range()")
